@@ -309,7 +309,7 @@ def plan(tier, seed):
       ks = [k for a, b in edges for k in range(a, b) if not lo <= k < mid]
       fams.append(_mk_list_family(f"frames-minute-edges-{rs}", rate, ks))
   # ClockTime
-  span = 2 * 3600 * 1000 if tier == "thorough" else 20 * 60 * 1000
+  span = 2 * 3600 * 1000 if tier == "thorough" else 5 * 60 * 1000
   fams.append(_mk_clock_family("clock-every-ms", lambda i: i, span, "every millisecond from 0"))
   hours = [h * 3600 * 1000 + d for h in range(1, 100) for d in range(-2000, 2001)]
   fams.append(_mk_clock_family("clock-hour-edges", lambda i, hours=hours: hours[i], len(hours), "+-2 s around every hour < 100 h"))
